@@ -1,8 +1,8 @@
 """Layout rules (C01, C14): L-AGREE (producer layout accepted by the parser graph and vice versa), L-SPEC (parser/producer layouts equal
 the hand-written CIP spec layouts), T-SEGMENTS (EPATH segment table), T-NCP (network connection parameter bit-fields)."""
-import ast
+import ast, copy
 
-from .core import ( rule, Result, AnalysisError, dotted, call_name, is_call_to, names_in, attrs_in, walk_no_nested,
+from .core import ( rule, Result, AnalysisError, dotted, call_name, const_value, is_call_to, names_in, attrs_in, walk_no_nested,
                     norm_text, dotted_in, stmt_of, pmatch, pfind, txt )
 from .fold import try_fold, fold, NoFold
 from .grammar import grammar_of, Node, Decide, FILES
@@ -803,6 +803,172 @@ def k_ncpstate( ctx ):
     if n < 1:
         raise AnalysisError( 'defaults.Connection: no method storing _NCP / _large found' )
     res.ok( src, cd, 'decoding readers of ( _NCP, _large ): %s' % sorted( decoders ), nontrivial=False )
+    return res
+
+
+class _GetAsAttr( ast.NodeTransformer ):
+    """D.get( 'k' ) -> D.k : a dotdict read of the same abstract location"""
+    def visit_Call( self, node ):
+        self.generic_visit( node )
+        if isinstance( node.func, ast.Attribute ) and node.func.attr == 'get' and len( node.args ) == 1 and isinstance( node.args[0], ast.Constant ) and isinstance( node.args[0].value, str ):
+            return ast.copy_location( ast.Attribute( value=node.func.value, attr=node.args[0].value, ctx=ast.Load()), node )
+        return node
+
+
+@rule( 'K-FOWIDTH', props=( 'C01', 'C14' ), floor=12 )
+def k_fowidth( ctx ):
+    """the Forward Open request producer emits a service code and two NCP words whose WIDTH (16 / 32 bit) is selected by a size-class flag; the
+    parser selects the width from the service code alone.  Decision table over ( size class of each connection, supplied service code ):
+    the statements ahead of the first emission are interpreted on every cell - a cell reaches the emission only with
+    ( service == the code registered with the 32-bit grammar ) == ( the flag that selects DWORD ); every other cell must raise."""
+    res = Result( 'K-FOWIDTH' )
+    src = ctx.src( 'server/enip/device.py' )
+    cm = src.get( 'Connection_Manager' )
+    fn = src.get( 'Connection_Manager.produce' )
+    # class constants
+    consts = {}
+    for st in cm.body:
+        if isinstance( st, ast.Assign ) and len( st.targets ) == 1 and isinstance( st.targets[0], ast.Name ):
+            v = try_fold( st.value, consts, NoFold )
+            if v is not NoFold:
+                consts[st.targets[0].id] = v
+    # which registered service number selects the 32-bit grammar: the machine-building function that passes large=True to the NCP decoder
+    codes = {}
+    for call in ast.walk( src.tree ):
+        if isinstance( call, ast.Call ) and isinstance( call.func, ast.Attribute ) and call.func.attr == 'register_service_parser':
+            kw = { k.arg: k.value for k in call.keywords }
+            mach = kw.get( 'machine' )
+            if 'number' in kw and isinstance( mach, ast.Call ) and isinstance( mach.func, ast.Name ):
+                mf = src.get( mach.func.id, required=False )
+                if mf is None:
+                    continue
+                lg = { const_value( k.value ) for c in ast.walk( mf ) if isinstance( c, ast.Call ) for k in c.keywords if k.arg == 'large' }
+                if lg and lg <= { True, False } and len( lg ) == 1:
+                    num = try_fold( kw['number'], lambda d: consts.get( d.split( '.' )[-1], NoFold ), NoFold )
+                    if num is NoFold:
+                        raise AnalysisError( 'K-FOWIDTH: registered service number %s not constant' % txt( kw['number'] ))
+                    codes[lg.pop()] = num
+    if set( codes ) != { True, False }:
+        raise AnalysisError( 'K-FOWIDTH: the small / large Forward Open grammars (Connection_decode large=False / True) are not both registered' )
+    LCODE, SCODE = codes[True], codes[False]
+    # the request branch: the If body holding the width selections  DWORD.produce( X.NCP ) if X.large else WORD.produce( X.NCP )
+    sels = [ e for e in ast.walk( fn ) if isinstance( e, ast.IfExp ) and is_call_to( e.body, 'DWORD.produce', 'WORD.produce' ) and is_call_to( e.orelse, 'DWORD.produce', 'WORD.produce' ) ]
+    if len( sels ) < 2:
+        raise AnalysisError( 'K-FOWIDTH: the two NCP width selections in Connection_Manager.produce not found' )
+    branch = None
+    for a in src.ancestors( sels[0] ):
+        if isinstance( a, ast.If ) and src.parent.get( a ) is fn:
+            branch = a; break
+        if isinstance( a, ast.If ) and isinstance( src.parent.get( a ), ast.If ) and a in src.parent[a].orelse:
+            branch = a
+    if branch is None:
+        raise AnalysisError( 'K-FOWIDTH: the Forward Open request branch not found' )
+    body = branch.body
+    emit = [ i for i, st in enumerate( body ) if isinstance( st, ast.AugAssign ) ]
+    if not emit:
+        raise AnalysisError( 'K-FOWIDTH: no emission in the request branch' )
+    svc_calls = [ c for st in body[emit[0]:] for c in ast.walk( st ) if is_call_to( c, 'USINT.produce' ) ]
+    SERVICE = dotted( svc_calls[0].args[0] ) if svc_calls and svc_calls[0].args else None
+    if SERVICE is None:
+        raise AnalysisError( 'K-FOWIDTH: the emitted service expression not found' )
+    pre = [ _GetAsAttr().visit( copy.deepcopy( st )) for st in body[:emit[0]] ]
+    # free size-class inputs: every  <x>.large  read ahead of the emission that is not stored first
+    free = []
+    for st in pre:
+        for a in ast.walk( st ):
+            if isinstance( a, ast.Attribute ) and a.attr == 'large' and isinstance( a.ctx, ast.Load ) and dotted( a ) and dotted( a ) not in free:
+                free.append( dotted( a ))
+    stored_large = { dotted( t ) for st in pre if isinstance( st, ast.Assign ) for t in st.targets if isinstance( t, ast.Attribute ) and t.attr == 'large' }
+
+    import itertools
+    inputs = list( free )
+
+    class Raised( Exception ):
+        pass
+
+    def run( stmts, env, alias ):
+        def look( d ):
+            if d in env:
+                return env[d]
+            parts = d.split( '.' )
+            if parts[0] in ( 'cls', 'self', cm.name ) and len( parts ) == 2 and parts[1] in consts:
+                return consts[parts[1]]
+            for i in range( len( parts ) - 1, 0, -1 ):
+                pre_ = '.'.join( parts[:i] )
+                if pre_ in alias:
+                    return look( '.'.join( [ alias[pre_] ] + parts[i:] ))
+            return NoFold
+        for st in stmts:
+            if isinstance( st, ast.Assign ):
+                v = try_fold( st.value, look, NoFold )
+                for t in st.targets:
+                    d = dotted( t )
+                    if d is None:
+                        continue
+                    if v is NoFold:
+                        env.pop( d, None )
+                        vd = st.value
+                        while isinstance( vd, ast.Attribute ) and vd.attr in ( 'decoding', ):
+                            vd = vd.value
+                        if dotted( vd ):
+                            alias[d] = dotted( vd )
+                        else:
+                            alias.pop( d, None )
+                            for k in [ k for k in env if k.startswith( d + '.' ) and k not in inputs ]:		# the free inputs model what is read from the new object
+                                del env[k]
+                    else:
+                        env[d] = v
+            elif isinstance( st, ast.If ):
+                t = try_fold( st.test, look, NoFold )
+                if t is NoFold:
+                    touched = { dotted( x ) for b in st.body + st.orelse for x in ast.walk( b ) if isinstance( x, ( ast.Attribute, ast.Name )) and isinstance( x.ctx, ast.Store ) }
+                    if SERVICE in touched or any( d and d.endswith( '.large' ) for d in touched ):
+                        raise AnalysisError( 'K-FOWIDTH: cannot decide %s, which guards a store of the service code / size class' % txt( st.test ))
+                    continue
+                run( st.body if t else st.orelse, env, alias )
+            elif isinstance( st, ast.Assert ):
+                t = try_fold( st.test, look, NoFold )
+                if t is not NoFold and not t:
+                    raise Raised()
+            elif isinstance( st, ast.Raise ):
+                raise Raised()
+        return look
+
+    cells = 0; reached = []; bad = []; outcome = []
+    for bits in itertools.product( ( False, True ), repeat=len( inputs )):
+        for svc in ( None, SCODE, LCODE ):
+            cells += 1
+            env = dict( zip( inputs, bits ))
+            env[SERVICE] = svc
+            alias = {}
+            try:
+                look = run( pre, env, alias )
+            except Raised:
+                outcome.append(( bits, svc, 'refused' ))
+                continue
+            widths = []
+            for e in sels:
+                w = try_fold( e.test, look, NoFold )
+                if w is NoFold:
+                    raise AnalysisError( 'K-FOWIDTH: the width selector %s cannot be traced to the size class decided ahead of the emission' % txt( e.test ))
+                widths.append( bool( w ) == is_call_to( e.body, 'DWORD.produce' ))		# True: 32-bit word emitted
+            code = look( SERVICE )
+            reached.append(( bits, svc ))
+            outcome.append(( bits, svc, 'emitted as %s with %s-bit NCP words' % ( '0x%02x' % code if isinstance( code, int ) else code, '/'.join( '32' if w else '16' for w in widths ))))
+            for e, w in zip( sels, widths ):
+                if code is NoFold or code is None or ( code == LCODE ) != w or code not in ( LCODE, SCODE ):
+                    bad.append(( dict( zip( inputs, bits )), svc, code, txt( e.test ), w ))
+    if bad:
+        c = bad[0]
+        res.bad( src, branch.body[emit[0]], 'Connection_Manager.produce: size classes %s with supplied service %s reach the emission with service %s and a %d-bit NCP for %s (%d of %d cells)' % (
+            c[0], '0x%02x' % c[1] if c[1] is not None else None, '0x%02x' % c[2] if isinstance( c[2], int ) else c[2], 32 if c[4] else 16, c[3], len({ ( tuple( sorted( b[0].items())), b[1] ) for b in bad }), cells ),
+            'the parser selects the NCP width from the service code: a 0x%02x request with 16-bit words (or 0x%02x with 32-bit) is read with every later field shifted - the inconsistent combination must be refused, not emitted' % ( LCODE, SCODE ),
+            func='Connection_Manager.produce' )
+    else:
+        for bits, svc, what in outcome:
+            res.ok( src, branch, 'Forward Open request, %s, supplied service %s: %s' % ( ', '.join( '%s=%s' % kv for kv in zip( inputs, bits )), '0x%02x' % svc if svc is not None else None, what ))
+        res.ok( src, branch, 'Forward Open request: %d cells ( %s x service None/0x%02x/0x%02x ), %d reach the emission, all with ( service == 0x%02x ) == 32-bit NCP words' % (
+            cells, ' x '.join( inputs ), SCODE, LCODE, len( reached ), LCODE ), nontrivial=False )
     return res
 
 
